@@ -29,10 +29,10 @@ type Frame struct {
 	defers []deferred
 	call   ssa.Instruction // instruction in the caller that awaits our result (nil: go/defer)
 
-	isDeferred  bool      // this frame is a deferred call
-	deferParent *Frame    // the frame that deferred it
-	viaPanic    *panicRec // the panic whose unwinding started this deferred call (nil: normal RunDefers)
-	recovering  bool      // a panic was recovered: run remaining defers, then resume at fn.Recover
+	isDeferred  bool                  // this frame is a deferred call
+	deferParent *Frame                // the frame that deferred it
+	viaPanic    *panicRec             // the panic whose unwinding started this deferred call (nil: normal RunDefers)
+	recovering  bool                  // a panic was recovered: run remaining defers, then resume at fn.Recover
 	onReturn    func(res Value) Value // result adaptor installed by an intrinsic that called back into interpreted code
 }
 
@@ -69,34 +69,34 @@ type PathEnd struct {
 }
 
 type Machine struct {
-	prog    *ssa.Program
-	ex      *Worker
-	gs      []*G
-	globals map[*ssa.Global]Ptr
-	wgs     map[Ptr]*WG
-	curIn   ssa.Instruction // the instruction being executed (for environment models that report races)
-	mus     map[Ptr]*Mu
-	onces   map[Ptr]*OnceSt
-	bufs    map[Ptr]*[]Value
-	side    map[Ptr]Value
-	nchan   int
-	steps   int
-	pc      []string // path condition conjuncts (smt)
-	nsym    map[string]int
-	cur     *G
-	preempt int
-	conc    map[string]int64 // expressions already pinned on this path
-	reached map[string]bool
-	known   []knownTag
-	obls    int // obligations discharged on this path
-	frames  []string
-	loopCnt map[*ssa.BasicBlock]int
-	race    *raceState
-	native  map[string]interface{} // per-path native objects (fake services, worlds, ...)
-	trace   []string
-	nextID  int
-	clock   int64
-	events  []string // harness-visible event log (verifLog)
+	prog        *ssa.Program
+	ex          *Worker
+	gs          []*G
+	globals     map[*ssa.Global]Ptr
+	wgs         map[Ptr]*WG
+	curIn       ssa.Instruction // the instruction being executed (for environment models that report races)
+	mus         map[Ptr]*Mu
+	onces       map[Ptr]*OnceSt
+	bufs        map[Ptr]*[]Value
+	side        map[Ptr]Value
+	nchan       int
+	steps       int
+	pc          []string // path condition conjuncts (smt)
+	nsym        map[string]int
+	cur         *G
+	preempt     int
+	conc        map[string]int64 // expressions already pinned on this path
+	reached     map[string]bool
+	known       []knownTag
+	obls        int // obligations discharged on this path
+	frames      []string
+	loopCnt     map[*ssa.BasicBlock]int
+	race        *raceState
+	native      map[string]interface{} // per-path native objects (fake services, worlds, ...)
+	trace       []string
+	nextID      int
+	clock       int64
+	events      []string // harness-visible event log (verifLog)
 	divergences int
 	lastClock   *Sym
 	primLog     []primRec
